@@ -65,8 +65,10 @@ CLAIMED = {
              'against the real function on round trips (numpy/dask/h5py), one-sided calls, permuted-size / wrong-size / other-factorisation arrays and '
              'squeezed singleton sides; the independent oracle demands the exact original matrix or an exception.',
         design='5/C10',
-        note='Trusted: Coq kernel, numpy transpose/reshape semantics, harness. Partial: one-sided calls (one matrix supplied, the other built from the '
-             'N-D shape) and squeezed singleton sides are covered by the executable model + correspondence, not by the inverse theorems. Three genuine '
+        note='Trusted: Coq kernel, numpy transpose/reshape semantics, harness. One-sided calls are theorems (Usid/FromNDOneSided: the call with one matrix equals the two-sided call '
+             'with the C-order, slowest-to-fastest grid of the remaining axes, hence the same coordinate map) for remaining axes of size >= 2; the '
+             'squeezed path (a 1 x 1 placeholder side whose axis is absent) is a theorem (Usid/FromNDSqueezed) when the present side has >= 2 dimensions. '
+             'Partial: a missing side containing a size-1 axis (open finding) stays with the executable model + correspondence. Three genuine '
              'defects found and fixed (singleton side, permuted shape accepted, weak one-sided guard); open findings for one-sided calls whose '
              'missing side has a size-1 dimension and for matrices with dims >= points.',
         technique='Coq proof (permutation round trip, composition with the C01/C09 grid theorems, extensionality of N-D arrays) + in-Coq correspondence evaluation'),
@@ -266,7 +268,9 @@ CLAIMED['C12'] = dict(
          'reduced ancillary matrices are again grid matrices (write_reduced_grid: matrix level = digit level, kept dimensions in the same relative '
          'order) and element (r,c) of the written matrix is the reduced value at the coordinates the new matrices carry (composition of the C01 '
          'exact-shape theorem, the fibre lemma and the C10 coordinate-map theorem). Partial: mean and std are floating point and are judged by the '
-         'numpy oracle only; a fully reduced side goes through the squeezed path of reshape_from_n_dims (executable model + correspondence). '
+         'numpy oracle only. A fully reduced side (theorems C12_all_position_dimensions_reduced / C12_all_spectroscopic_dimensions_reduced) becomes the '
+         '1 x 1 placeholder labelled with the next free dimension number and the written vector is laid out by the other side\'s new grid (squeezed path of '
+         'reshape_from_n_dims, >= 2 dimensions left there; with fewer the call raises). '
          'Trusted: Coq kernel, harness, dask reductions.',
     technique='Coq proof (fibre lemma, composition with C01 grid theorem, selected-rows enumeration for the reduced ancillaries) + vm_compute correspondence of the composed pipeline')
 
